@@ -1,0 +1,22 @@
+//! Verification hooks: thin public wrappers over crate-internal functions.
+//!
+//! Compiled only with `RUSTFLAGS="--cfg image_webp_verif"`; nothing here changes the behaviour of the
+//! crate. Used by the differential harness in /verif.
+#![allow(missing_docs)]
+
+use crate::vp8::Frame;
+
+/// `alpha_blending::do_alpha_blending`
+pub fn blend(buffer: [u8; 4], canvas: [u8; 4]) -> [u8; 4] {
+    crate::alpha_blending::do_alpha_blending(buffer, canvas)
+}
+
+/// `Frame::fill_rgb` on caller-built planes
+pub fn fill_rgb(width: u16, height: u16, y: &[u8], u: &[u8], v: &[u8], buf: &mut [u8]) {
+    Frame::verif_from_planes(width, height, y, u, v).fill_rgb(buf);
+}
+
+/// `Frame::fill_rgba` on caller-built planes
+pub fn fill_rgba(width: u16, height: u16, y: &[u8], u: &[u8], v: &[u8], buf: &mut [u8]) {
+    Frame::verif_from_planes(width, height, y, u, v).fill_rgba(buf);
+}
